@@ -95,7 +95,6 @@ func c10N1(l *core.Ledger, r *rt) {
 		return
 	}
 	key := fnKey(fn)
-	_ = idx
 	// If on isConnected()
 	var notConn []sx.Edge
 	var isConnFn *ssa.Function
@@ -138,7 +137,13 @@ func c10N1(l *core.Ledger, r *rt) {
 			t, f := sx.CondEdges(ifi)
 			return edgeIn(t, notConn) || edgeIn(f, notConn)
 		}
-		_, tested := sx.MustPassThrough(sx.NodeOf(sel), isTest, fate)
+		// from the dequeue itself (the case that took a request), not from the select: its other
+		// cases (the node is closed) do not carry a request to be sent
+		from := sx.NodeOf(sel)
+		if e, okE := selectCaseEdge(sel, idx); okE {
+			from = sx.Node{B: e.To, I: -1}
+		}
+		_, tested := sx.MustPassThrough(from, isTest, fate)
 		l.Check(ok && tested, "C10-N1", key, fn.Pos(), "every request: isConnected() test, connect() on the not-connected edge before send/answer", fmt.Sprintf("a request can be sent or failed without a (re)connection attempt although the node is not connected (test on every path: %v; connect before fate on the not-connected edge: %v): a node that came back is not used again", tested, ok))
 	}
 	// isConnected
